@@ -12,7 +12,7 @@ _FALLBACK = None
 _PLATEAU = None
 SIZES = {  # (quick, thorough) number of pairs per stratum
     "uniform": (120, 2500), "threshold": (260, 6000), "grey": (80, 3000), "named": (60, 2000),
-    "nearbg": (80, 2000), "hair": (60, 1200), "witness": (900, 20000), "witness_neargrey": (900, 20000), "witness_special": (900, 20000), "witness_plateau": (900, 20000), "witness_crossover": (900, 20000), "witness_translucent": (900, 20000), "spell": (130, 3000), "isolum": (150, 3000), "hairline": (70, 1500), "corner": (120, 2500), "zeroone": (40, 400), "edge": (120, 2500), "ultrahair": (90, 1500), "neargrey": (90, 1500), "informal": (60, 1000), "razor": (150, 3000), "extreme": (60, 1500), "hslbg": (90, 2000), "witness_edge": (900, 20000), "history": (150, 3000), "equilum": (150, 3000), "css4": (80, 1500), "witness_hsl": (900, 20000),
+    "nearbg": (80, 2000), "hair": (60, 1200), "witness": (900, 20000), "witness_neargrey": (900, 20000), "witness_special": (900, 20000), "witness_plateau": (900, 20000), "witness_crossover": (900, 20000), "witness_satbg": (900, 20000), "witness_translucent": (900, 20000), "spell": (130, 3000), "isolum": (150, 3000), "hairline": (70, 1500), "corner": (120, 2500), "zeroone": (40, 400), "edge": (120, 2500), "ultrahair": (90, 1500), "neargrey": (90, 1500), "informal": (60, 1000), "razor": (150, 3000), "extreme": (60, 1500), "hslbg": (90, 2000), "witness_edge": (900, 20000), "history": (150, 3000), "equilum": (150, 3000), "css4": (80, 1500), "witness_hsl": (900, 20000),
 }
 
 
@@ -36,7 +36,7 @@ def strata(pid, t, rnd):
          "C02": dict(uniform=.7, threshold=1, grey=.7, named=.5, nearbg=.7, hair=1.5, spell=.6, isolum=4, hairline=1, corner=3, zeroone=1, ultrahair=.5, neargrey=1.5, informal=1.5, razor=1.4, extreme=.5, hslbg=1, equilum=.5),
          "C16": dict(uniform=.5, threshold=1.2, grey=.5, named=.3, nearbg=2.0, hair=.3, spell=.2, isolum=.5, edge=2, corner=.3, history=1, equilum=1),
          "C04": dict(uniform=1, threshold=1, grey=.5, named=.3, nearbg=1.5, hair=.2, spell=.3, isolum=.5),
-         "C03": dict(witness=1, witness_neargrey=.6, witness_translucent=.2, witness_hsl=.25, extreme=3, witness_edge=.6, witness_special=.5, witness_plateau=.2, witness_crossover=.4)}[pid]
+         "C03": dict(witness=1, witness_neargrey=.6, witness_translucent=.2, witness_hsl=.25, extreme=3, witness_edge=.6, witness_special=.5, witness_plateau=.2, witness_crossover=.4, witness_satbg=.4)}[pid]
     for name, scale in w.items():
         n = n_of(name, t, scale)
         for k in range(n):
@@ -187,6 +187,20 @@ def strata(pid, t, rnd):
                     g_ = rnd.randrange(2, 24) if rnd.random() < 0.5 else rnd.randrange(232, 254)
                     a = tuple(min(255, max(0, g_ + rnd.choice([-1, 0, 0, 1]))) for _ in range(3))
                     if 4.5 * 0.95 <= refs.wcag_ratio(a, b) < 4.5:
+                        add(a, b, lg2, witness=True, runs=[(m, vr) for m in (0, 1, 2)])
+                        break
+            elif name == "witness_satbg":
+                # saturated backgrounds at the corners of the cube (fuchsia, cyan, yellow, pure blue ... and their neighbours): their
+                # OKLCH lightness and their WCAG luminance disagree most about "light" and "dark"; text a few levels from white / black
+                for _try in range(300):
+                    lg2, vr = bool(rnd.getrandbits(1)), bool(rnd.getrandbits(1))
+                    tq = pairs.REQ[(lg2, vr)]
+                    b = pairs.cube_corner(rnd) if rnd.random() < 0.7 else tuple(rnd.choice((0, 255)) for _ in range(3))
+                    if len(set(b)) == 1:
+                        continue
+                    g_ = rnd.randrange(2, 30) if rnd.random() < 0.5 else rnd.randrange(225, 254)
+                    a = tuple(min(255, max(0, g_ + rnd.choice([-1, 0, 0, 1]))) for _ in range(3))
+                    if tq * 0.94 <= refs.wcag_ratio(a, b) < tq:
                         add(a, b, lg2, witness=True, runs=[(m, vr) for m in (0, 1, 2)])
                         break
             elif name == "witness_plateau":
